@@ -66,21 +66,22 @@ const (
 
 // Thread is one controlled goroutine.
 type Thread struct {
-	ID      int
-	Name    string
-	wake    chan struct{}
-	st      state
-	cond    func() bool // non-nil: blocked until cond() holds
-	yielded bool
-	label   string   // pending operation
-	pending []Access // plain accesses performed right after the park
-	acc     []Access // accumulated by vrt.F/vrt.M until vrt.P
-	accObs  []func() string
-	steps   int
-	obs     uint64 // running hash of everything the thread observed
-	Panic   any
-	PanicAt string
-	realGID uint64
+	abandoned bool // given up by the watchdog: still blocked (or running uncontrolled) outside the scheduler
+	ID        int
+	Name      string
+	wake      chan struct{}
+	st        state
+	cond      func() bool // non-nil: blocked until cond() holds
+	yielded   bool
+	label     string   // pending operation
+	pending   []Access // plain accesses performed right after the park
+	acc       []Access // accumulated by vrt.F/vrt.M until vrt.P
+	accObs    []func() string
+	steps     int
+	obs       uint64 // running hash of everything the thread observed
+	Panic     any
+	PanicAt   string
+	realGID   uint64
 }
 
 // Options of one scheduler instance.
@@ -133,7 +134,7 @@ type Sched struct {
 // WatchdogSeconds: if no thread reaches a scheduling point for this long (real time) the process
 // ends with a harness error instead of hanging until an outer timeout: the running thread is
 // blocked outside the scheduler (a real lock held by a parked thread, real I/O). Not an oracle.
-var WatchdogSeconds = 120
+var WatchdogSeconds = 20
 
 var active atomic.Pointer[Sched]
 
@@ -253,6 +254,14 @@ func (s *Sched) Run() *Outcome {
 	s.ready.Wait()
 	active.Store(s)
 	s.started = true
+	if Stuck.Load() > 0 {
+		s.aborted = StuckAborted
+		s.threadExit()
+		s.waitDone()
+		active.Store(nil)
+		s.out.Aborted = s.aborted
+		return &s.out
+	}
 	next := s.pick(nil)
 	if next != nil {
 		s.resume(nil, next)
@@ -273,6 +282,15 @@ func (s *Sched) Run() *Outcome {
 	return &s.out
 }
 
+// Stuck counts executions that were given up because the running thread blocked outside the
+// scheduler (see waitDone). Once non-zero, every later Run in this process gives up at once: the
+// blocked goroutine may hold real locks of the code under test for ever.
+var Stuck atomic.Int64
+
+// StuckAborted is Outcome.Aborted of such an execution. It says nothing about the code under
+// test: harnesses treat it as inconclusive.
+const StuckAborted = "stuck-outside-scheduler"
+
 func (s *Sched) waitDone() {
 	last, idle := s.beat.Load(), 0
 	tick := time.NewTicker(time.Second)
@@ -288,18 +306,27 @@ func (s *Sched) waitDone() {
 			}
 			idle++
 			if idle >= WatchdogSeconds {
+				// The running thread has not come back for WatchdogSeconds of real time: it waits, outside
+				// the scheduler, for something only a parked thread can do (a synchronisation primitive of
+				// a dependency — x/sync/singleflight, a channel — that the build does not substitute). The
+				// execution is given up: the blocked thread is abandoned (if it ever wakes it runs on
+				// uncontrolled: every hook is a no-op once aborted), the parked ones unwind in order.
 				name, label := "?", "?"
-				if t := s.cur; t != nil {
+				t := s.cur
+				if t != nil {
 					name, label = t.Name, t.label
 				}
-				fmt.Fprintf(os.Stderr, "HARNESS-ERROR scheduler watchdog: no scheduling point reached for %d s; running thread %s (last operation %q) is blocked outside the scheduler\n", WatchdogSeconds, name, label)
-				buf := make([]byte, 1<<16)
-				n := runtime.Stack(buf, true)
-				if n > 6000 {
-					n = 6000
+				fmt.Fprintf(os.Stderr, "note: scheduler watchdog: no scheduling point reached for %d s; thread %s (last operation %q) is blocked outside the scheduler — execution given up\n", WatchdogSeconds, name, label)
+				Stuck.Add(1)
+				s.aborted = StuckAborted
+				s.out.Blocked = append(s.out.Blocked, name+"@outside-the-scheduler-after-"+label)
+				if t != nil {
+					t.st = stFinished
+					t.abandoned = true
 				}
-				fmt.Fprintf(os.Stderr, "%s\n", buf[:n])
-				os.Exit(2)
+				s.threadExit()
+				<-s.done
+				return
 			}
 		}
 	}
